@@ -65,163 +65,176 @@ def check(R):
     c = {n: F.const_val(NF + n) for n in ('ADD_CSR_REQ_RECVD', 'UPDATE_CSR_REQ_RECVD', 'ADD_ROOT_CERT_RECVD', 'ADD_NOC_RECVD', 'UPDATE_NOC_RECVD')}
     R.expect('P6', NF, 'the five command flags are distinct single bits', len(set(c.values())) == 5 and all(v and v & (v - 1) == 0 for v in c.values()), str(c), str(c))
     # ---- a / b ----------------------------------------------------------------
-    table = {}
-    for m in ('add_trusted_root_cert', 'add_csr_req', 'update_csr_req', 'update_noc', 'add_noc', 'disarm'):
-        b = R.body(FS + '::' + m)
-        muts = _state_mutations(b)
-        R.floor(f'state mutations in {m}', len(muts), 1)
-        R.cut('P2', b, f'mutate fail-safe state in {m}', muts, 'check_state ok', lambda b=b: R.call_guard(b, FS + '::check_state'))
-        t = b.calls(FS + '::check_state')[0]
-        pres, absn, op = (_flag_value(F, b, t.d['a'][k]) for k in (2, 3, 4))
-        R.expect('P6', b.fn, 'check_state flag arguments are constants', None not in (pres, absn, op), f'present={pres} absent={absn} op={op}', f'present={pres} absent={absn} op={op}', b.where(t.bb))
-        if None in (pres, absn, op):
-            continue
-        table[m] = (pres, absn, op)
-        s = prims.sources(b, t.d['a'][1])
-        R.expect('P10', b.fn, 'check_state is evaluated for the caller\'s session mode', any(x[0] == 'arg' and b.local_name(x[1]) == 'session_mode' for x in s), 'session_mode param',
-                 f'{sorted(map(str, s))[:4]}', b.where(t.bb))
-        if op:
-            R.expect('P6', b.fn, 'a command cannot be repeated: op is among the flags that must be absent', op & absn == op, f'op={op:#x} absent={absn:#x}', f'op={op:#x} is not within absent={absn:#x}', b.where(t.bb))
-            af = b.calls(FS + '::add_flags')
-            R.floor(f'add_flags in {m}', len(af), 1)
-            rec = _flag_value(F, b, af[0].d['a'][1])
-            R.expect('P6', b.fn, 'the flag recorded is the flag that was checked', rec == op, f'add_flags({rec:#x}) == op', f'add_flags({rec}) but op={op:#x}', b.where(af[0].bb))
-            bad = prims.always_followed_by(b, [b.calls('fabric::Fabrics::add', 'fabric::Fabrics::update')[0].bb] if m in ('add_noc', 'update_noc') else [t.bb], [af[0].bb],
-                                           exits=[x for x in ok_return_bbs(b)] or None) if False else []
-    if 'add_noc' in table:
-        p, a, o = table['add_noc']
-        R.expect('P6', FS + '::add_noc', 'AddNOC requires the root certificate and an AddNOC CSR', p == c['ADD_ROOT_CERT_RECVD'] | c['ADD_CSR_REQ_RECVD'], hex(p), hex(p))
-        R.expect('P6', FS + '::add_noc', 'AddNOC excludes an UpdateNOC CSR / UpdateNOC', a & (c['UPDATE_CSR_REQ_RECVD'] | c['UPDATE_NOC_RECVD']) == c['UPDATE_CSR_REQ_RECVD'] | c['UPDATE_NOC_RECVD'], hex(a), hex(a))
-    if 'update_noc' in table:
-        p, a, o = table['update_noc']
-        R.expect('P6', FS + '::update_noc', 'UpdateNOC requires an UpdateNOC CSR', p == c['UPDATE_CSR_REQ_RECVD'], hex(p), hex(p))
-        need = c['ADD_ROOT_CERT_RECVD'] | c['ADD_NOC_RECVD'] | c['ADD_CSR_REQ_RECVD']
-        R.expect('P6', FS + '::update_noc', 'UpdateNOC excludes root / AddNOC / AddNOC CSR', a & need == need, hex(a), hex(a))
-    for m in ('add_csr_req', 'update_csr_req'):
-        if m in table:
-            p, a, o = table[m]
-            both = c['ADD_CSR_REQ_RECVD'] | c['UPDATE_CSR_REQ_RECVD']
-            R.expect('P6', FS + '::' + m, 'only one CSRRequest per fail-safe context', a & both == both, hex(a), hex(a))
-    R.floor('flag table rows', len(table), 6)
-    # arm
-    arm = R.body(FS + '::arm')
-    muts = _state_mutations(arm)
-    idle_edges = set()
-    for i, blk in enumerate(arm.bbs):
+    with R.clause('a / b'):
         pass
-    st_edges, _ = prims.enum_local_edges(F, arm, lambda pl: any(isinstance(x, str) and x.startswith('.state:' + FS) for x in pl[1:]), 'failsafe::State', ['Idle'])
-    R.cut('P2', arm, 'mutate fail-safe state in arm', muts, 'state is Idle, or check_state ok', lambda: st_edges | R.call_guard(arm, FS + '::check_state'))
-    # check_state itself
-    cs = R.body(FS + '::check_state')
-    oks = ok_return_bbs(cs)
-    R.floor('Ok return of check_state', len(oks), 1)
-    armed_edges, _ = prims.enum_local_edges(F, cs, lambda pl: any(isinstance(x, str) and x.startswith('.state:' + FS) for x in pl[1:]), 'failsafe::State', ['Armed'])
-    R.cut('P2', cs, 'return Ok', oks, 'the fail-safe is armed', armed_edges)
-    R.cut('P2', cs, 'return Ok', oks, 'ctx.fab_idx == session_mode.fab_idx()',
-          lambda: _cmp_false(cs, 'Ne', lambda s: mentions(s, 'fab_idx') and not any(c_.endswith('SessionMode::fab_idx') for c_ in src_calls(s)),
-                             lambda s: any(c_.endswith('SessionMode::fab_idx') for c_ in src_calls(s))))
-    R.cut('P2', cs, 'return Ok', oks, 'flags.contains(present)', lambda: _named_call_edges(R, cs, '::contains', True, arg_name='present'))
-    R.cut('P2', cs, 'return Ok', oks, 'flags.intersection(absent).is_empty()', lambda: _absent_edges(R, cs))
-    pt_edges, other = prims.enum_local_edges(F, cs, lambda pl: pl[0] in (2,) or (len(pl) > 1 and pl[0] == 2), 'transport::session::SessionMode', ['PlainText'])
-    R.cut('P2', cs, 'return Ok', oks, 'session is not plain text', other)
+        table = {}
+        for m in ('add_trusted_root_cert', 'add_csr_req', 'update_csr_req', 'update_noc', 'add_noc', 'disarm'):
+            b = R.body(FS + '::' + m)
+            muts = _state_mutations(b)
+            R.floor(f'state mutations in {m}', len(muts), 1)
+            R.cut('P2', b, f'mutate fail-safe state in {m}', muts, 'check_state ok', lambda b=b: R.call_guard(b, FS + '::check_state'))
+            t = b.calls(FS + '::check_state')[0]
+            pres, absn, op = (_flag_value(F, b, t.d['a'][k]) for k in (2, 3, 4))
+            R.expect('P6', b.fn, 'check_state flag arguments are constants', None not in (pres, absn, op), f'present={pres} absent={absn} op={op}', f'present={pres} absent={absn} op={op}', b.where(t.bb))
+            if None in (pres, absn, op):
+                continue
+            table[m] = (pres, absn, op)
+            s = prims.sources(b, t.d['a'][1])
+            R.expect('P10', b.fn, 'check_state is evaluated for the caller\'s session mode', any(x[0] == 'arg' and b.local_name(x[1]) == 'session_mode' for x in s), 'session_mode param',
+                     f'{sorted(map(str, s))[:4]}', b.where(t.bb))
+            if op:
+                R.expect('P6', b.fn, 'a command cannot be repeated: op is among the flags that must be absent', op & absn == op, f'op={op:#x} absent={absn:#x}', f'op={op:#x} is not within absent={absn:#x}', b.where(t.bb))
+                af = b.calls(FS + '::add_flags')
+                R.floor(f'add_flags in {m}', len(af), 1)
+                rec = _flag_value(F, b, af[0].d['a'][1])
+                R.expect('P6', b.fn, 'the flag recorded is the flag that was checked', rec == op, f'add_flags({rec:#x}) == op', f'add_flags({rec}) but op={op:#x}', b.where(af[0].bb))
+                bad = prims.always_followed_by(b, [b.calls('fabric::Fabrics::add', 'fabric::Fabrics::update')[0].bb] if m in ('add_noc', 'update_noc') else [t.bb], [af[0].bb],
+                                               exits=[x for x in ok_return_bbs(b)] or None) if False else []
+        if 'add_noc' in table:
+            p, a, o = table['add_noc']
+            R.expect('P6', FS + '::add_noc', 'AddNOC requires the root certificate and an AddNOC CSR', p == c['ADD_ROOT_CERT_RECVD'] | c['ADD_CSR_REQ_RECVD'], hex(p), hex(p))
+            R.expect('P6', FS + '::add_noc', 'AddNOC excludes an UpdateNOC CSR / UpdateNOC', a & (c['UPDATE_CSR_REQ_RECVD'] | c['UPDATE_NOC_RECVD']) == c['UPDATE_CSR_REQ_RECVD'] | c['UPDATE_NOC_RECVD'], hex(a), hex(a))
+        if 'update_noc' in table:
+            p, a, o = table['update_noc']
+            R.expect('P6', FS + '::update_noc', 'UpdateNOC requires an UpdateNOC CSR', p == c['UPDATE_CSR_REQ_RECVD'], hex(p), hex(p))
+            need = c['ADD_ROOT_CERT_RECVD'] | c['ADD_NOC_RECVD'] | c['ADD_CSR_REQ_RECVD']
+            R.expect('P6', FS + '::update_noc', 'UpdateNOC excludes root / AddNOC / AddNOC CSR', a & need == need, hex(a), hex(a))
+        for m in ('add_csr_req', 'update_csr_req'):
+            if m in table:
+                p, a, o = table[m]
+                both = c['ADD_CSR_REQ_RECVD'] | c['UPDATE_CSR_REQ_RECVD']
+                R.expect('P6', FS + '::' + m, 'only one CSRRequest per fail-safe context', a & both == both, hex(a), hex(a))
+        R.floor('flag table rows', len(table), 6)
+        # arm
+        arm = R.body(FS + '::arm')
+        muts = _state_mutations(arm)
+        idle_edges = set()
+        for i, blk in enumerate(arm.bbs):
+            pass
+        st_edges, _ = prims.enum_local_edges(F, arm, lambda pl: any(isinstance(x, str) and x.startswith('.state:' + FS) for x in pl[1:]), 'failsafe::State', ['Idle'])
+        R.cut('P2', arm, 'mutate fail-safe state in arm', muts, 'state is Idle, or check_state ok', lambda: st_edges | R.call_guard(arm, FS + '::check_state'))
+        # check_state itself
+        cs = R.body(FS + '::check_state')
+        oks = ok_return_bbs(cs)
+        R.floor('Ok return of check_state', len(oks), 1)
+        armed_edges, _ = prims.enum_local_edges(F, cs, lambda pl: any(isinstance(x, str) and x.startswith('.state:' + FS) for x in pl[1:]), 'failsafe::State', ['Armed'])
+        R.cut('P2', cs, 'return Ok', oks, 'the fail-safe is armed', armed_edges)
+        R.cut('P2', cs, 'return Ok', oks, 'ctx.fab_idx == session_mode.fab_idx()',
+              lambda: _cmp_false(cs, 'Ne', lambda s: mentions(s, 'fab_idx') and not any(c_.endswith('SessionMode::fab_idx') for c_ in src_calls(s)),
+                                 lambda s: any(c_.endswith('SessionMode::fab_idx') for c_ in src_calls(s))))
+        R.cut('P2', cs, 'return Ok', oks, 'flags.contains(present)', lambda: _named_call_edges(R, cs, '::contains', True, arg_name='present'))
+        R.cut('P2', cs, 'return Ok', oks, 'flags.intersection(absent).is_empty()', lambda: _absent_edges(R, cs))
+        pt_edges, other = prims.enum_local_edges(F, cs, lambda pl: pl[0] in (2,) or (len(pl) > 1 and pl[0] == 2), 'transport::session::SessionMode', ['PlainText'])
+        R.cut('P2', cs, 'return Ok', oks, 'session is not plain text', other)
 
     # ---- c --------------------------------------------------------------------
-    for m, inst in (('add_noc', 'fabric::Fabrics::add'), ('update_noc', 'fabric::Fabrics::update')):
-        b = R.body(FS + '::' + m)
-        ib = call_bbs(b, inst)
-        R.cut('P2', b, inst.split('::')[-2] + '::' + inst.split('::')[-1], ib, 'validate_certs ok', lambda b=b: R.call_guard(b, FS + '::validate_certs'))
-        nes = [t for t in b.calls('core::cmp::PartialEq::ne') if 'cert::CertRef::pubkey' in src_calls(prims.sources(b, t.d['a'][1]) | prims.sources(b, t.d['a'][0]))]
-        R.expect('P2', b.fn, 'the NOC public key is compared with the key generated for this CSR', len(nes) >= 1, 'csr_pubkey != noc.pubkey()', 'comparison missing')
-        if nes:
-            R.cut('P2', b, inst.split('::')[-1] + ' the fabric', ib, 'CSR public key == NOC public key', lambda b=b, nes=nes: prims.track_result(F, b, nes[0]).failure)
-            s = prims.sources(b, nes[0].d['a'][0]) | prims.sources(b, nes[0].d['a'][1])
-            R.expect('P10', b.fn, 'the compared key derives from the fail-safe\'s own secret key', mentions(s, 'secret_key') or 'crypto::SecretKey::pub_key' in src_calls(s) or any('csr_pubkey' == b.local_name(l) for l in range(len(b.locals))),
-                     'secret_key -> pub_key', f'{sorted(map(str, s))[:6]}')
-        t = b.calls(FS + '::validate_certs')[0]
-        rs = prims.sources(b, t.d['a'][4], through={'cert::CertRef::new', 'tlv::read::TLVElement::new', 'fabric::Fabric::root_ca', 'fabric::Fabrics::fabric'})
-        if m == 'add_noc':
-            R.expect('P10', b.fn, 'AddNOC validates against the staged trusted root', mentions(rs, 'root_ca'), 'root <= self.root_ca', f'{sorted(map(str, rs))[:6]}', b.where(t.bb))
-        else:
-            R.expect('P10', b.fn, 'UpdateNOC validates against the fabric\'s own root', 'fabric::Fabric::root_ca' in src_calls(rs), 'root <= fabrics.fabric(fab_idx).root_ca()', f'{sorted(map(str, rs))[:6]}', b.where(t.bb))
-    an = R.body(FS + '::add_noc')
-    confl = [(bb, o) for (bb, j, o, a, b2, d) in prims.compare_sites(an, ops=('Eq',)) if 'fabric::Fabric::fabric_id' in src_calls(prims.sources(an, a) | prims.sources(an, b2))]
-    R.expect('P2', an.fn, 'AddNOC scans existing fabrics for the same (fabric id, root key)', len(confl) >= 1 and any(c_.endswith('Fabrics::iter') for c_ in an.calls_summary), 'duplicate-fabric scan present', 'duplicate-fabric scan missing')
-    un = R.body(FS + '::update_noc')
-    R.cut('P2', un, 'Fabrics::update', call_bbs(un, 'fabric::Fabrics::update'), 'NOC fabric id == the fabric\'s id',
-          lambda: _cmp_false(un, 'Ne', lambda s: 'cert::CertRef::get_fabric_id' in src_calls(s), lambda s: 'fabric::Fabric::fabric_id' in src_calls(s)))
+    with R.clause('c'):
+        pass
+        for m, inst in (('add_noc', 'fabric::Fabrics::add'), ('update_noc', 'fabric::Fabrics::update')):
+            b = R.body(FS + '::' + m)
+            ib = call_bbs(b, inst)
+            R.cut('P2', b, inst.split('::')[-2] + '::' + inst.split('::')[-1], ib, 'validate_certs ok', lambda b=b: R.call_guard(b, FS + '::validate_certs'))
+            nes = [t for t in b.calls('core::cmp::PartialEq::ne') if 'cert::CertRef::pubkey' in src_calls(prims.sources(b, t.d['a'][1]) | prims.sources(b, t.d['a'][0]))]
+            R.expect('P2', b.fn, 'the NOC public key is compared with the key generated for this CSR', len(nes) >= 1, 'csr_pubkey != noc.pubkey()', 'comparison missing')
+            if nes:
+                R.cut('P2', b, inst.split('::')[-1] + ' the fabric', ib, 'CSR public key == NOC public key', lambda b=b, nes=nes: prims.track_result(F, b, nes[0]).failure)
+                s = prims.sources(b, nes[0].d['a'][0]) | prims.sources(b, nes[0].d['a'][1])
+                R.expect('P10', b.fn, 'the compared key derives from the fail-safe\'s own secret key', mentions(s, 'secret_key') or 'crypto::SecretKey::pub_key' in src_calls(s) or any('csr_pubkey' == b.local_name(l) for l in range(len(b.locals))),
+                         'secret_key -> pub_key', f'{sorted(map(str, s))[:6]}')
+            t = b.calls(FS + '::validate_certs')[0]
+            rs = prims.sources(b, t.d['a'][4], through={'cert::CertRef::new', 'tlv::read::TLVElement::new', 'fabric::Fabric::root_ca', 'fabric::Fabrics::fabric'})
+            if m == 'add_noc':
+                R.expect('P10', b.fn, 'AddNOC validates against the staged trusted root', mentions(rs, 'root_ca'), 'root <= self.root_ca', f'{sorted(map(str, rs))[:6]}', b.where(t.bb))
+            else:
+                R.expect('P10', b.fn, 'UpdateNOC validates against the fabric\'s own root', 'fabric::Fabric::root_ca' in src_calls(rs), 'root <= fabrics.fabric(fab_idx).root_ca()', f'{sorted(map(str, rs))[:6]}', b.where(t.bb))
+        an = R.body(FS + '::add_noc')
+        confl = [(bb, o) for (bb, j, o, a, b2, d) in prims.compare_sites(an, ops=('Eq',)) if 'fabric::Fabric::fabric_id' in src_calls(prims.sources(an, a) | prims.sources(an, b2))]
+        R.expect('P2', an.fn, 'AddNOC scans existing fabrics for the same (fabric id, root key)', len(confl) >= 1 and any(c_.endswith('Fabrics::iter') for c_ in an.calls_summary), 'duplicate-fabric scan present', 'duplicate-fabric scan missing')
+        un = R.body(FS + '::update_noc')
+        R.cut('P2', un, 'Fabrics::update', call_bbs(un, 'fabric::Fabrics::update'), 'NOC fabric id == the fabric\'s id',
+              lambda: _cmp_false(un, 'Ne', lambda s: 'cert::CertRef::get_fabric_id' in src_calls(s), lambda s: 'fabric::Fabric::fabric_id' in src_calls(s)))
 
     # ---- d --------------------------------------------------------------------
-    GC = '<dm::clusters::gen_comm::GenCommHandler as dm::clusters::decl::general_commissioning::ClusterHandler>::handle_commissioning_complete'
-    stores = sorted(F.callers_of('fabric::FabricPersist::store'))
-    n = 0
-    for cfn in stores:
-        if F.owner_fn(cfn) == GC:
-            continue
-        b = F.body(cfn)
-        n += 1
-        gname = FS + '::is_armed_for' if FS + '::is_armed_for' in b.calls_summary else FS + '::has_pending_noc_for'
-        R.cut('P2', b, 'FabricPersist::store', call_bbs(b, 'fabric::FabricPersist::store'), f'{gname.split("::")[-1]}(fab) == false',
-              lambda b=b, gname=gname: _fail_edges(R, b, gname))
-    R.floor('guarded FabricPersist::store sites', n, 8)
+    with R.clause('d'):
+        pass
+        GC = '<dm::clusters::gen_comm::GenCommHandler as dm::clusters::decl::general_commissioning::ClusterHandler>::handle_commissioning_complete'
+        stores = sorted(F.callers_of('fabric::FabricPersist::store'))
+        n = 0
+        for cfn in stores:
+            if F.owner_fn(cfn) == GC:
+                continue
+            b = F.body(cfn)
+            n += 1
+            vid = F.owner_fn(cfn).endswith('::handle_set_vid_verification_statement')
+            # the VID verification statement belongs to the NOC being staged: has_pending_noc_for is the documented predicate there;
+            # everywhere else the coarser is_armed_for(fab) must hold back the write
+            gname = FS + '::has_pending_noc_for' if vid else FS + '::is_armed_for'
+            R.cut('P2', b, 'FabricPersist::store', call_bbs(b, 'fabric::FabricPersist::store'), f'{gname.split("::")[-1]}(fab) == false',
+                  lambda b=b, gname=gname: _fail_edges(R, b, gname))
+        R.floor('guarded FabricPersist::store sites', n, 8)
 
     # ---- e --------------------------------------------------------------------
-    cc = closure_in(R, GC, ['FailSafe::disarm', 'FabricPersist::store'])
-    result_used(R, 'P8', cc, ('fabric::FabricPersist::store',))
-    net = closure_in(R, GC, ['Persist::store'])
-    result_used(R, 'P8', net, ('persist::Persist::store',))
-    nsite = closure_arg_sites(cc, net.fn)
-    R.floor('networks.access(store) site', len(nsite), 1)
-    okb = ok_return_bbs(cc)
-    R.cut('P2', cc, 'report success (Ok)', okb, 'fabric persisted', lambda: R.call_guard(cc, 'fabric::FabricPersist::store'))
-    R.cut('P2', cc, 'report success (Ok)', okb, 'networks persisted', lambda: _site_edges(R, cc, nsite))
-    R.cut('P2', cc, 'persist / close window / drop PASE sessions', call_bbs(cc, 'fabric::FabricPersist::store', 'sc::pase::Pase::close_comm_window', 'transport::session::Sessions::remove_pase'),
-          'FailSafe::disarm ok (armed, CASE session of that fabric)', lambda: R.call_guard(cc, FS + '::disarm'))
-    s = prims.sources(cc, cc.calls('fabric::FabricPersist::store')[0].d['a'][1])
-    R.expect('P10', cc.fn, 'the fabric persisted is the one the fail-safe was armed for', FS + '::disarm' in src_calls(s), 'store(disarm(..)?)', f'{sorted(map(str, s))[:5]}')
-    # stronger ordering: durable before disarm
-    dis = call_bbs(cc, FS + '::disarm')
-    before = prims.precedes(cc, call_bbs(cc, 'fabric::FabricPersist::store'), dis)
-    if before:
-        R.fail('P3', cc.fn, 'durable stores succeed before the fail-safe is disarmed',
-               'FailSafe::disarm (state = Idle) runs before FabricPersist::store / the networks store: if a key-value write fails the command answers an error, '
-               'yet the fail-safe is no longer armed, so the unpersisted fabric is neither rolled back nor durable (all-or-nothing broken under a KV fault)',
-               cc.where(dis[0]), key='P3|handle_commissioning_complete|disarm-before-durable-store')
-    else:
-        R.ok('P3', cc.fn, 'durable stores succeed before the fail-safe is disarmed', 'store precedes disarm')
-    owner = bodies_of(F, GC)
-    top = [b for b in owner if b.fn == GC][0]
-    ends = [t.bb for t in top.calls() if t.d.get('f', '').endswith('::end')]
-    maps = [t for t in top.calls() if t.d.get('f', '').endswith('CommissioningErrorEnum>::map')]
-    R.floor('CommissioningErrorEnum::map in CommissioningComplete', len(maps), 1)
-    R.cut('P2', top, 'finish the response', ends, 'the commit closure did not fail with a storage error', lambda: _site_edges(R, top, maps))
+    with R.clause('e'):
+        pass
+        cc = closure_in(R, GC, ['FailSafe::disarm', 'FabricPersist::store'])
+        result_used(R, 'P8', cc, ('fabric::FabricPersist::store',))
+        net = closure_in(R, GC, ['Persist::store'])
+        result_used(R, 'P8', net, ('persist::Persist::store',))
+        nsite = closure_arg_sites(cc, net.fn)
+        R.floor('networks.access(store) site', len(nsite), 1)
+        okb = ok_return_bbs(cc)
+        R.cut('P2', cc, 'report success (Ok)', okb, 'fabric persisted', lambda: R.call_guard(cc, 'fabric::FabricPersist::store'))
+        R.cut('P2', cc, 'report success (Ok)', okb, 'networks persisted', lambda: _site_edges(R, cc, nsite))
+        R.cut('P2', cc, 'persist / close window / drop PASE sessions', call_bbs(cc, 'fabric::FabricPersist::store', 'sc::pase::Pase::close_comm_window', 'transport::session::Sessions::remove_pase'),
+              'FailSafe::disarm ok (armed, CASE session of that fabric)', lambda: R.call_guard(cc, FS + '::disarm'))
+        s = prims.sources(cc, cc.calls('fabric::FabricPersist::store')[0].d['a'][1])
+        R.expect('P10', cc.fn, 'the fabric persisted is the one the fail-safe was armed for', FS + '::disarm' in src_calls(s), 'store(disarm(..)?)', f'{sorted(map(str, s))[:5]}')
+        # stronger ordering: durable before disarm
+        dis = call_bbs(cc, FS + '::disarm')
+        before = prims.precedes(cc, call_bbs(cc, 'fabric::FabricPersist::store'), dis)
+        if before:
+            R.fail('P3', cc.fn, 'durable stores succeed before the fail-safe is disarmed',
+                   'FailSafe::disarm (state = Idle) runs before FabricPersist::store / the networks store: if a key-value write fails the command answers an error, '
+                   'yet the fail-safe is no longer armed, so the unpersisted fabric is neither rolled back nor durable (all-or-nothing broken under a KV fault)',
+                   cc.where(dis[0]), key='P3|handle_commissioning_complete|disarm-before-durable-store')
+        else:
+            R.ok('P3', cc.fn, 'durable stores succeed before the fail-safe is disarmed', 'store precedes disarm')
+        owner = bodies_of(F, GC)
+        top = [b for b in owner if b.fn == GC][0]
+        ends = [t.bb for t in top.calls() if t.d.get('f', '').endswith('::end')]
+        maps = [t for t in top.calls() if t.d.get('f', '').endswith('CommissioningErrorEnum>::map')]
+        R.floor('CommissioningErrorEnum::map in CommissioningComplete', len(maps), 1)
+        R.cut('P2', top, 'finish the response', ends, 'the commit closure did not fail with a storage error', lambda: _site_edges(R, top, maps))
 
     # ---- f --------------------------------------------------------------------
-    ex = R.body(FS + '::expire')
-    exc = closure_in(R, FS + '::expire', ['Fabrics::remove'])
-    R.expect('P3', exc.fn, 'roll-back reloads the persisted fabric after dropping the in-memory one',
-             not prims.always_followed_by(exc, [e[1] for e in R.call_guard(exc, 'fabric::Fabrics::remove')], call_bbs(exc, 'fabric::Fabrics::add_load')), 'remove -> add_load', 'a path skips add_load')
-    t1, t2 = exc.calls('fabric::Fabrics::remove')[0], exc.calls('fabric::Fabrics::add_load')[0]
-    R.expect('P10', exc.fn, 'the fabric reloaded has the index of the fabric dropped',
-             bool({x for x in prims.sources(exc, t1.d['a'][1]) if x[0] in ('upvar', 'field', 'call')} & {x for x in prims.sources(exc, t2.d['a'][1], through={'core::num::nonzero::NonZero::get'}) if x[0] in ('upvar', 'field', 'call')}),
-             'same index', 'different index sources')
-    nl = closure_in(R, FS + '::expire', ['KvBlobStore::load'])
-    keys = [prims.sources(nl, t.d['a'][1]) for t in nl.calls('persist::KvBlobStore::load')]
-    R.expect('P10', nl.fn, 'networks are restored from NETWORKS_KEY or reset', any(any(x[0] == 'constp' and x[1].endswith('NETWORKS_KEY') for x in k) for k in keys)
-             and any(c_.endswith('::reset') for c_ in nl.calls_summary) and any(c_.endswith('::load') for c_ in nl.calls_summary), 'load(NETWORKS_KEY) / reset()', 'networks roll-back incomplete')
-    acc = [t for t in ex.calls() if t.d.get('f', '').endswith('KvBlobStoreAccess::access')]
-    R.floor('kv.access in expire', len(acc), 1)
-    after = R.call_guard(ex, acc[0].d['f'])
-    for desc, bbs in (('remove_pase', call_bbs(ex, 'transport::session::Sessions::remove_pase')),
-                      ('state = Idle', [i for i, j, s in ex.field_writes('state:' + FS)]),
-                      ('breadcrumb = 0', [i for i, j, s in ex.field_writes('breadcrumb:' + FS)])):
-        bad = prims.always_followed_by(ex, [e[1] for e in after], bbs) if bbs else ['missing']
-        R.expect('P3', ex.fn, f'roll-back always performs: {desc}', not bad, 'on every path after the storage roll-back', f'{desc} skipped on a path / missing')
-    bw = [s for i, j, s in ex.field_writes('breadcrumb:' + FS)]
-    R.expect('P6', ex.fn, 'breadcrumb is zeroed', all(s[1].get('op') == 'use' and s[1]['a'][0].get('k', {}).get('v') == 0 for s in bw) and bool(bw), '0', 'not the constant 0')
-    R.expect('P4', 'im::InteractionModel::check_timeouts', 'the periodic sweep drives the timer expiry', FS + '::check_failsafe_timeout' in prims.reachable_fns(F, ['im::InteractionModel::check_timeouts'], depth=3),
-             'check_timeouts -> check_failsafe_timeout', 'not reachable')
-    ct = R.body(FS + '::check_failsafe_timeout')
-    R.expect('P10', ct.fn, 'expiry compares now >= armed_at + timeout', any(c_.endswith('Instant::now') for c_ in ct.calls_summary) and (FS + '::expire') in ct.calls_summary, 'ok', 'missing')
+    with R.clause('f'):
+        pass
+        ex = R.body(FS + '::expire')
+        exc = closure_in(R, FS + '::expire', ['Fabrics::remove'])
+        R.expect('P3', exc.fn, 'roll-back reloads the persisted fabric after dropping the in-memory one',
+                 not prims.always_followed_by(exc, [e[1] for e in R.call_guard(exc, 'fabric::Fabrics::remove')], call_bbs(exc, 'fabric::Fabrics::add_load')), 'remove -> add_load', 'a path skips add_load')
+        t1, t2 = exc.calls('fabric::Fabrics::remove')[0], exc.calls('fabric::Fabrics::add_load')[0]
+        R.expect('P10', exc.fn, 'the fabric reloaded has the index of the fabric dropped',
+                 bool({x for x in prims.sources(exc, t1.d['a'][1]) if x[0] in ('upvar', 'field', 'call')} & {x for x in prims.sources(exc, t2.d['a'][1], through={'core::num::nonzero::NonZero::get'}) if x[0] in ('upvar', 'field', 'call')}),
+                 'same index', 'different index sources')
+        nl = closure_in(R, FS + '::expire', ['KvBlobStore::load'])
+        keys = [prims.sources(nl, t.d['a'][1]) for t in nl.calls('persist::KvBlobStore::load')]
+        R.expect('P10', nl.fn, 'networks are restored from NETWORKS_KEY or reset', any(any(x[0] == 'constp' and x[1].endswith('NETWORKS_KEY') for x in k) for k in keys)
+                 and any(c_.endswith('::reset') for c_ in nl.calls_summary) and any(c_.endswith('::load') for c_ in nl.calls_summary), 'load(NETWORKS_KEY) / reset()', 'networks roll-back incomplete')
+        acc = [t for t in ex.calls() if t.d.get('f', '').endswith('KvBlobStoreAccess::access')]
+        R.floor('kv.access in expire', len(acc), 1)
+        after = R.call_guard(ex, acc[0].d['f'])
+        for desc, bbs in (('remove_pase', call_bbs(ex, 'transport::session::Sessions::remove_pase')),
+                          ('state = Idle', [i for i, j, s in ex.field_writes('state:' + FS)]),
+                          ('breadcrumb = 0', [i for i, j, s in ex.field_writes('breadcrumb:' + FS)])):
+            bad = prims.always_followed_by(ex, [e[1] for e in after], bbs) if bbs else ['missing']
+            R.expect('P3', ex.fn, f'roll-back always performs: {desc}', not bad, 'on every path after the storage roll-back', f'{desc} skipped on a path / missing')
+        bw = [s for i, j, s in ex.field_writes('breadcrumb:' + FS)]
+        R.expect('P6', ex.fn, 'breadcrumb is zeroed', all(s[1].get('op') == 'use' and s[1]['a'][0].get('k', {}).get('v') == 0 for s in bw) and bool(bw), '0', 'not the constant 0')
+        R.expect('P4', 'im::InteractionModel::check_timeouts', 'the periodic sweep drives the timer expiry', FS + '::check_failsafe_timeout' in prims.reachable_fns(F, ['im::InteractionModel::check_timeouts'], depth=3),
+                 'check_timeouts -> check_failsafe_timeout', 'not reachable')
+        ct = R.body(FS + '::check_failsafe_timeout')
+        R.expect('P10', ct.fn, 'expiry compares now >= armed_at + timeout', any(c_.endswith('Instant::now') for c_ in ct.calls_summary) and (FS + '::expire') in ct.calls_summary, 'ok', 'missing')
 
 
 def _cmp_false(body, op, lp, rp):
@@ -235,7 +248,7 @@ def _fail_edges(R, body, callee):
     e = set()
     sites = body.calls(callee)
     if not sites:
-        from run import GuardMissing
+        from facts import GuardMissing
         raise GuardMissing(f'{body.fn}: no call of {callee}')
     for t in sites:
         e |= prims.track_result(R.facts, body, t).failure
@@ -277,7 +290,7 @@ def _absent_edges(R, body):
         if any(x[0] == 'arg' and body.local_name(x[1]) == 'absent' for x in s) and mentions(s, 'flags'):
             ok = True
     if not ok:
-        from run import GuardMissing
+        from facts import GuardMissing
         raise GuardMissing(f'{body.fn}: ctx.flags.intersection(absent) not found - the "must be absent" test is not an intersection with the current flags')
     for t in body.calls():
         if t.d.get('f', '').endswith('::is_empty'):
